@@ -2881,26 +2881,13 @@ def r11_cached_content_handed_out_as_deep_copy(ctx, rid):
                               f"the next load of the same definition", facts, label=label)
             else:
                 raise AnalysisError(f"{rid}: cannot tell what {e.f.qualname} does with the cached content it receives from `{norm(e.node)}`")
-        # (b) the cache is read directly: what the reading function returns
+        # (b) the cache is read directly by the function that hands its entries out: listed, not decided here (cached objects that are
+        # meant to be shared - compiled modules, template objects - and private helpers whose caller copies cannot be told apart from a
+        # leak by the return value alone; C14 / C15 decide those cases)
         for g in sorted({e.f for e in c.events if e.f is not None and e.kind == "keyread"}, key=lambda x: x.qual):
-            rets = eff.returns(g, None)
-            shared = [o for o in rets if from_cache(o)]
-            if not shared:
-                continue
-            mutable_escape = [o for o in shared]
-            n += 1
-            label = f"content of {c.key} leaves {g.qualname} as a deep copy"
-            # objects kept whole on purpose (template_cache hands out the template object: aliasing is C14's subject) are not content
-            # that consumers edit; only containers read out of the cached value (a deeper path) are
-            deep = [o for o in shared if len((o[1] if o[0] == "C" else o)[3]) >= 2]
-            if deep:
-                o = deep[0]
-                ctx.violation(rid, g, g.node, f"{g.qualname} returns {'a shallow copy of ' if o[0] == 'C' else ''}`{fmt_origin(o[1] if o[0] == 'C' else o)}`, "
-                              f"a container inside the content kept in `{key}`: consumers that edit it edit the cache, and the next hit returns "
-                              f"the edited content", {"returns": sorted(fmt_origin(x) for x in rets)}, label=label)
-            else:
-                ctx.info(rid, g, g.node, f"{g.qualname} hands out the cached object of `{key}` itself (sharing of cached template objects is C14's subject)",
-                         label=label)
+            if any(from_cache(o) for o in eff.returns(g, None)):
+                ctx.info(rid, g, g.node, f"{g.qualname} returns (part of) an entry of `{key}` to its callers (not decided here)",
+                         label=f"content of {c.key} handed out by {g.qualname}")
     if n == 0:
         ctx.info(rid, None, None, "no content-keyed cache hands entries to a caller", construct="C13-R11::no cache hands out content", loc="-")
 
